@@ -178,16 +178,16 @@ def corr_modes(run, quick):
                                     if c is None:
                                         continue
                                     zin = rows_in[r, ell * (ell + 1) + mi: ell * (ell + 1) + mi + 1]
-                                    cc = int(c) if name in ARRAY_LEFT or name == "Rz" else c
                                     with np.errstate(all="ignore"):
-                                        e = (zin * cc) if name in ARRAY_LEFT else (cc * zin)
-                                        if name == "ethbar":
-                                            e = c * zin      # model coefficient of ethbar is already negated; see below
-                                    z = rows_out[r, ell * (ell + 1) + m]
-                                    if name == "ethbar":
-                                        # the code negates the product of the positive coefficient: -(|c| * z)
-                                        with np.errstate(all="ignore"):
+                                        if name == "ethbar":          # the code negates the product with the positive coefficient
                                             e = -((-c) * zin)
+                                        elif name in ARRAY_LEFT:      # `array *= python int`
+                                            e = zin * int(c)
+                                        elif name == "Rz":            # `python int * array`
+                                            e = int(c) * zin
+                                        else:                         # `python float * array`
+                                            e = c * zin
+                                    z = rows_out[r, ell * (ell + 1) + m]
                                     if cx_bits(e) != cx_bits([z]):
                                         nbad += 1
                                         if nbad <= 3:
